@@ -249,7 +249,7 @@ MATCHERS = {"C05-bare-zone-releases-siblings": _known_bare_sibling,
 
 
 def run(ctx):
-    shapes = {"top", "d1", "d3", "sec", "bare", "baresib", "two", "tworev", "three", "cmt", "last"}
+    shapes = {"top", "d1", "d3", "sec", "bare", "baresib", "two", "tworev", "three", "cmt", "last", "closedeep"}
     want = json.load(open(ctx.replay))["case"] if ctx.replay else None
     if ctx.thorough or want is not None:
         consts = dict(MaxLines=3, Fences={3, 4, 5, 6}, Shapes=shapes)
@@ -265,7 +265,7 @@ def run(ctx):
         cases = [c for c in cases if len(c["z"]["ls"]) <= 2 or (c["z"]["shape"] in ("top", "d1", "bare", "tworev") and c["z"]["tag"] != "python")]
     elif not ctx.thorough:
         # quick: all single-line zones, and two-line zones for the plain shapes only
-        cases = [c for c in cases if len(c["z"]["ls"]) <= 1 or c["z"]["shape"] in ("top", "d1", "sec", "bare", "tworev")]
+        cases = [c for c in cases if len(c["z"]["ls"]) <= 1 or c["z"]["shape"] in ("top", "d1", "sec", "bare", "tworev", "closedeep")]
     try:
         records = engine.parallel_map(replay, list(enumerate(cases)), chunk=50)
     finally:
